@@ -40,9 +40,11 @@ PROBES = ["hs_reached", "hs_resume_from_suspend", "fallback_timeout_reached", "h
           "idle_just_too_short", "vbus_loss", "soft_disconnect", "bus_busy_stall", "low_speed",
           # multi-episode histories: a later episode of the same run that differs from an earlier one
           "later_handshake", "later_handshake_fewer_pairs", "hs_after_later_handshake", "later_suspend", "suspend_speed_change",
-          "hs_suspend_left_by_reset", "fs_resume_after_hs_suspend"]
+          "hs_suspend_left_by_reset", "fs_resume_after_hs_suspend",
+          # runs executed on a complete USBDevice (judged at its UTMI pins) instead of the bare sequencer
+          "device_level_run", "device_level_hs_reached"]
 META = {
-    "components_real": ["USBResetSequencer"],
+    "components_real": ["USBResetSequencer", "USBDevice (every 8th run: sequencer wired inside a complete device, judged at the UTMI pins)"],
     "components_stubbed": ["UTMI PHY line_state / VBUS, host signalling, strap inputs (models.line_state.LineState)"],
     "assumptions": ["line_state, VBUS and the strap inputs are synchronous to the 60 MHz clock",
                     "the three-pairs requirement is read as: after the device chirp the input contains K>=150, later J>=150, three times "
@@ -358,7 +360,23 @@ def _gen_multi(rng, tier, index):
     return {"engine": ENGINE, "config": {"template": "multi_" + goal, "pins": pins, "plan": plan}, "ops": ops}
 
 
+DEVICE_EVERY = 8        # every 8th run (index % 8 == 5) is executed on a complete USBDevice instead of the bare sequencer
+
+
 def gen(rng, tier, index):
+    scn = _gen_single(rng, tier, index)
+    if index % DEVICE_EVERY == 5:
+        # Device-level run: the same history is played to a complete USBDevice (ULPI timing: always_fs off, 60 MHz) and
+        # judged at its UTMI pins (op_mode / xcvr_select / term_select / tx_valid) and its reset_detected / suspended
+        # outputs, so that the wiring of the sequencer inside USBDevice is covered too.  Soft-disconnect requests are left
+        # out there: USBDevice gates term_select with `connect`, which the statement does not talk about.
+        scn["config"]["dut"] = "device"
+        scn["config"]["pins"]["disconnect"] = 0
+        scn["ops"] = [op for op in scn["ops"] if not (op["op"] == "set" and op["pin"] == "disconnect")]
+    return scn
+
+
+def _gen_single(rng, tier, index):
     if index % MULTI_EVERY == 0:
         return _gen_multi(rng, tier, index)
     tmpl = rng.choice(["fs_bursts", "fs_bursts", "handshake", "handshake", "handshake", "timeout", "deadline", "deadline",
@@ -516,7 +534,7 @@ def gen(rng, tier, index):
 
 
 # --------------------------------------------------------------------------------------------------
-def _bench():
+def _bench(kind="sequencer"):
     def factory():
         from luna.gateware.usb.usb2.reset import USBResetSequencer
         dut = USBResetSequencer()
@@ -526,6 +544,41 @@ def _bench():
         outs = {"bus_reset": dut.bus_reset, "suspended": dut.suspended, "speed": dut.current_speed,
                 "op_mode": dut.operating_mode, "term": dut.termination_select, "tx_valid": dut.tx.valid}
         return make_bench(dut, clocks={"usb": 1 / 60e6}, main="usb", ins=ins, outs=outs)
+
+    def device_factory():
+        from amaranth import Elaboratable, Module, Signal
+        from luna.gateware.usb.usb2.device import USBDevice
+        from luna.gateware.interface.utmi import UTMIInterface
+
+        class DeviceUnderLineState(Elaboratable):
+            """ A complete USBDevice (no endpoints) on a UTMI bus, configured as USBDevice configures itself for a ULPI PHY
+                (always_fs off, 60 MHz, bus_busy an input) through its public attributes. """
+            def __init__(self):
+                self.utmi = UTMIInterface()
+                self.dev = USBDevice(bus=self.utmi)
+                self.dev.always_fs = False
+                self.dev.data_clock = 60e6
+                self.bus_busy = Signal()
+                self.dev.bus_busy = self.bus_busy
+                self.vbus_connected = Signal()
+                self.disconnect = Signal()
+
+            def elaborate(self, platform):
+                m = Module()
+                m.submodules.dev = self.dev
+                m.d.comb += [self.utmi.session_end.eq(~self.vbus_connected), self.dev.connect.eq(~self.disconnect)]
+                return m
+
+        top = DeviceUnderLineState()
+        dev, utmi = top.dev, top.utmi
+        ins = {"line_state": utmi.line_state, "vbus_connected": top.vbus_connected, "low_speed_only": dev.low_speed_only,
+               "full_speed_only": dev.full_speed_only, "disconnect": top.disconnect, "bus_busy": top.bus_busy,
+               "tx_ready": utmi.tx_ready}
+        outs = {"bus_reset": dev.reset_detected, "suspended": dev.suspended, "speed": utmi.xcvr_select,
+                "op_mode": utmi.op_mode, "term": utmi.term_select, "tx_valid": utmi.tx_valid}
+        return make_bench(top, clocks={"usb": 1 / 60e6}, main="usb", ins=ins, outs=outs)
+    if kind == "device":
+        return cached_bench(("c19", "device"), device_factory)
     return cached_bench(("c19",), factory)
 
 
@@ -563,7 +616,7 @@ def _count_pairs(ls, t0, t1):
 
 
 def run(scn):
-    bench = _bench()
+    bench = _bench(scn["config"].get("dut", "sequencer"))
     pins = dict(scn["config"]["pins"])
     actor = LineState(scn["ops"], pins)
     init = dict(pins)
@@ -814,6 +867,9 @@ def run(scn):
     probes["soft_disconnect"] = sum(1 for t, v in actor.pin_changes["disconnect"][1:] if v == 1)
     probes["bus_busy_stall"] = sum(1 for t, v in actor.pin_changes["bus_busy"] if v == 1)
     probes["low_speed"] = int(any(o[2] == LOW for t, o in och))
+    if scn["config"].get("dut") == "device":
+        probes["device_level_run"] = 1
+        probes["device_level_hs_reached"] = int(probes["hs_reached"] > 0)
 
     fault_keys = ["short_chirp_state", "two_pairs_only", "glitched_chirp", "restrict_during_hs", "restrict_during_hs_detect_window",
                   "restrict_mid_handshake", "se0_just_too_short", "idle_just_too_short", "vbus_loss", "soft_disconnect",
